@@ -67,7 +67,7 @@ func c10(env *core.Env) {
 	h.lifetimes = [][]int{{0}, {1, 2, 3}, {3}, {300}, {0, 2, 300}}[c.Int("lifetimes", 5)]
 	h.tokenField = []string{"token", "access_token", "both"}[c.Int("tokenfield", 3)]
 	h.giveRefresh = c.Bool("giverefresh", 1, 3)
-	h.challengeMut = []string{"", "", "superset", "reordered", "duplicate"}[c.Int("challengemut", 5)]
+	h.challengeMut = []string{"", "", "superset", "reordered", "duplicate", "more-actions"}[c.Int("challengemut", 6)]
 	if c.Bool("spurious401", 1, 6) {
 		h.spurious401 = 1
 	}
